@@ -36,6 +36,10 @@ func (s *runState) opReaddir(class string) {
 		return
 	}
 	bufLen := uint32(tape.Pick(t, []int{24, 25, 30, 47, 48, 49, 64, 100, 128, 256, 1000, 4096, 23, 8}))
+	if f != nil && f.rdDirty && t.Chance(1, 2) {
+		// the directory changed during this pass: buffers that make the host read one or two entries at a time
+		bufLen = uint32(tape.Pick(t, []int{24, 25, 30, 47, 48, 49, 60}))
+	}
 	if s.hugeDir && t.Chance(1, 2) {
 		bufLen = uint32(tape.Pick(t, []int{16384, 32768, 49152, 65536}))
 	}
